@@ -141,7 +141,7 @@ def addPrivate (o : Opts) (stmtId : Str) (fieldKey : List Nat) (row : Row) (reg 
           let (reg', id) := register reg stmtId (fieldKey ++ [1000 + i]) p 1000 []
           (row.set (pcomp ++ refSuffix) (appendCell (row.get (pcomp ++ refSuffix)) [','] id), reg')
         else
-          (row.set pcomp (appendCell (row.get pcomp) [','] (adjust o.gs (flatNode 64 p))), reg)
+          (row.set (pcomp ++ refSuffix) (appendCell (row.get (pcomp ++ refSuffix)) [','] (adjust o.gs (flatNode 64 p))), reg)
       | _ => (row, reg)
     addPrivate o stmtId fieldKey row reg ps (i + 1)
 
